@@ -20,8 +20,9 @@ ASSUMPTIONS = ["dense simulator (literal gate matrices) is the root of trust", "
 BUDGET = {"quick": 400, "thorough": 3300}
 
 
-def check_prep(case):
-    """predicate on plain data; returns [(key, msg, extra)]"""
+def check_prep(case, keep=None):
+    """predicate on plain data; returns [(key, msg, extra)].  If `keep` is a list, the returned circuit object is appended to it
+    together with a snapshot of its instruction list (for the deferred re-verification after later calls)."""
     L = libif.lib()
     n, name, fmt = case["n"], case["connectivity"], case["format"]
     fails = []
@@ -51,6 +52,8 @@ def check_prep(case):
     try:
         ops = libif.ops_of(out)
         psi = dense.run(ops, n)
+        if keep is not None:
+            keep.append((out, [(o[0], tuple(o[1])) for o in ops], case))
     except dense.UnknownGate as e:
         raise fw.HarnessError(f"returned circuit contains a gate that cannot be interpreted: {e}")
     if psi_in is not None:
@@ -77,11 +80,26 @@ def nontrivial_key(case, gens, orbit, n):
     return (n, case["connectivity"], pauli.signed_canonical(gens, n), case["format"])
 
 
-def run_subject(rep, n, name, gens, fmt, meta, graph_gid=None, sample=False):
+def verify_held(rep, held):
+    """deferred re-verification: a circuit handed out earlier must still be the circuit that was verified, whatever calls came later"""
+    for qc, snap, case in held:
+        now = [(o[0], tuple(o[1])) for o in libif.ops_of(qc)]
+        rep.count("deferred_reverifications", "done")
+        if now != snap:
+            n, name = case["n"], case["connectivity"]
+            seq = [dict(c) for _, _, c in held]
+            rep.fail(f"{n}/{name}/returned-circuit-changed-by-later-calls", {"sequence": seq, "n": n, "connectivity": name},
+                     f"{n}-{name}: the circuit returned for {case.get('strings')} was changed by later calls of get_preparation_circuit "
+                     f"({len(snap)} instructions when returned, {len(now)} now) and no longer is the verified circuit")
+            break
+    del held[:]
+
+
+def run_subject(rep, n, name, gens, fmt, meta, graph_gid=None, sample=False, keep=None):
     case = {"n": n, "connectivity": name, "strings": sweep.strings(gens, n), "format": fmt}
     if graph_gid is not None and fmt == "graph":
         case["graph_gid"] = graph_gid
-    fails = check_prep(case)
+    fails = check_prep(case, keep)
     orbit = lc.orbit_of(gens, n)
     rep.case(nontrivial_key(case, gens, orbit, n), dict(case, **meta) if sample else None)
     rep.count("calls_per_config", f"{n}-{name}")
@@ -104,12 +122,17 @@ def shard(arg):
                 rep.truncated = True
                 break
             names = cfgs if cfg_mode == "all" else [rng.choice(cfgs)]
-            for sv in sweep.sign_vectors(n, sign_mode, rng):
+            held = []
+            svs = sweep.sign_vectors(n, sign_mode, rng)
+            if len(svs) == 1:
+                svs = svs + [svs[0] ^ (1 << rng.randrange(n))] if (fw.h64("c01again", seed, n, i) % 4 == 0) else svs
+            for sv in svs:
                 g2 = members.apply_signs(gens, sv)
                 fmts = sweep.applicable_formats(g2, n)
                 for name in names:
                     i += 1
-                    run_subject(rep, n, name, g2, fmts[i % len(fmts)], meta, sample=(i % 5000 == 1))
+                    run_subject(rep, n, name, g2, fmts[i % len(fmts)], meta, sample=(i % 5000 == 1), keep=held)
+            verify_held(rep, held)
     elif kind == "member":
         _, n, orbits, k, sign_mode, seed, deadline = arg
         cfgs = sweep.configs(n)
@@ -118,12 +141,17 @@ def shard(arg):
             if deadline and time.time() > deadline:
                 rep.truncated = True
                 break
+            held = []
             for name in cfgs:
-                for sv in sweep.sign_vectors(n, sign_mode, rng):
+                svs = sweep.sign_vectors(n, sign_mode, rng)
+                if len(svs) == 1 and name == cfgs[0]:
+                    svs = svs + [svs[0] ^ (1 << rng.randrange(n))]     # same generators, other signs: exercises history effects
+                for sv in svs:
                     g2 = members.apply_signs(gens, sv)
                     fmts = sweep.applicable_formats(g2, n)
                     i += 1
-                    run_subject(rep, n, name, g2, fmts[i % len(fmts)], meta, sample=(i % 3000 == 1))
+                    run_subject(rep, n, name, g2, fmts[i % len(fmts)], meta, sample=(i % 3000 == 1), keep=held)
+            verify_held(rep, held)
     elif kind == "graphs":
         # the graph input format: canonical generators of graph states, all graphs n<=4, drawn for n=5,6
         _, n, gids, seed = arg
@@ -193,4 +221,12 @@ def run(ctx):
 
 
 def replay(case):
+    if "sequence" in case:
+        rep = fw.Report()
+        held = []
+        out = []
+        for c in case["sequence"]:
+            out += [{"key": k, "msg": m, "case": c} for k, m, e in check_prep(c, held)]
+        verify_held(rep, held)
+        return out + rep.failures
     return [{"key": k, "msg": m, "case": case} for k, m, e in check_prep(case)]
